@@ -55,7 +55,9 @@ SeqsOf(S, n) == IF n = 0 THEN {<<>>} ELSE {<<x>> \o s : x \in S, s \in SeqsOf(S,
 
 Dead == [live |-> FALSE, shape |-> <<>>, first |-> <<>>, val |-> <<>>]
 Arr(sh, fi, va) == [live |-> TRUE, shape |-> sh, first |-> fi, val |-> va]
-EmptyArr == Arr(Zeros(DimD), Zeros(DimD), <<>>)
+(* the value of a default-constructed / cleared / moved-from array: no elements; a zero-dimensional array always *)
+(* holds exactly one element, whose value is then unspecified                                                 *)
+EmptyArr == IF DimD = 0 THEN Arr(<<>>, <<>>, <<U>>) ELSE Arr(Zeros(DimD), Zeros(DimD), <<>>)
 
 (* an extents argument: bases are only meaningful for non-empty shapes *)
 Exts == {[shape |-> sh, first |-> fi] : sh \in SeqsOf(0..MaxExt, DimD), fi \in SeqsOf(ABases, DimD)}
